@@ -161,6 +161,28 @@ class CompatScenario:
 
     # ---- attributes / calls -------------------------------------------------------------------------
     def on_attr(self, obj: V, attr: str, node: ast.AST, st: State) -> Optional[V]:
+        if isinstance(obj, R) and obj.kind == "usergeneric":
+            # Box[int] for `class Box(Generic[T])` nested in class Containers of module warehouse: a typing._GenericAlias whose
+            # _name is None; __qualname__ / __name__ are answered with the UNQUALIFIED name of the origin (CPython >= 3.10)
+            if attr == "_name":
+                return K(None)
+            if attr in ("__qualname__", "__name__"):
+                return K(obj.fields["qualname"].v.split(".")[-1])
+            if attr == "__origin__":
+                return R("userclass", module=obj.fields["module"], qualname=obj.fields["qualname"])
+            if attr == "__args__":
+                return obj.fields["args"]
+            if attr == "__module__":
+                return obj.fields["module"]
+        if isinstance(obj, R) and obj.kind == "userclass":
+            if attr == "__qualname__":
+                return obj.fields["qualname"]
+            if attr == "__name__":
+                return K(obj.fields["qualname"].v.split(".")[-1])
+            if attr == "__module__":
+                return obj.fields["module"]
+            st.pending = st.pending or "AttributeError"
+            return U(f"a class has no {attr}")
         if isinstance(obj, R) and obj.kind == "typeddict":
             if attr == "__name__" or attr == "__qualname__":
                 return obj.fields["name"]
@@ -185,9 +207,18 @@ class CompatScenario:
                 return obj.fields["args"]
             st.pending = st.pending or "AttributeError"
             return U("no __args__")
+        if attr in ("__qualname__", "__name__") and ((isinstance(obj, R) and obj.kind == "generic") or (isinstance(obj, S) and obj.name.startswith("mod:typing.") and obj.name[11:] in ALIASES)):
+            # typing's own aliases answer with their public name (Optional[X] says "Optional")
+            if isinstance(obj, S):
+                return K(obj.name[11:])
+            o_ = obj.fields["origin"].v
+            return K("Optional" if o_ == "Union" and len(obj.fields["args"].v) == 2 and NONE in obj.fields["args"].v else o_)
         if attr == "_name":
             if isinstance(obj, R) and obj.kind == "generic":
-                return K(None) if obj.fields["origin"].v == "Union" else obj.fields["origin"]
+                o_u = obj.fields["origin"].v
+                if o_u == "Union":
+                    return K("Optional") if len(obj.fields["args"].v) == 2 and NONE in obj.fields["args"].v else K(None)
+                return obj.fields["origin"]
             if isinstance(obj, S) and obj.name.startswith("mod:typing."):
                 return K(obj.name[11:])
             st.pending = st.pending or "AttributeError"
@@ -354,4 +385,30 @@ def compat_predicates(ctx: Ctx, repo: Repo, rule: str, which: Tuple[str, ...] = 
             n += 1
             got = v.v if k == "return" and isinstance(v, K) else f"{k} {v}"
             ctx.check(got is want or got == want, rule, fi.fq, f"{name} answers as the type models assume", construct=f"{name}({la}) = {got}, expected {want}")
-    ctx.floor(rule, "compat predicate instances interpreted", n, 40 if which == ("types_equal",) else 60)
+    for name in ("qualname_of_generic", "name_of_generic"):
+        if name not in which:
+            continue
+        fi = repo.fn(CP, name)
+        ctx.functions.add(fi.fq)
+        user1 = R("usergeneric", module=K("warehouse"), qualname=K("Containers.Box"), args=K((INT,)))
+        user2 = R("usergeneric", module=K("warehouse"), qualname=K("Box"), args=K((INT, STR)))
+        cases = [(la, a) for la, a in uni if (isinstance(a, R) and a.kind == "generic") or (isinstance(a, S) and a.name.startswith("mod:typing.") and a.name[11:] in ALIASES)]
+        cases += [("warehouse.Containers.Box[int] (a user-defined generic class nested in a class)", user1), ("warehouse.Box[int, str] (a user-defined generic class)", user2)]
+        for la, a in cases:
+            k, v = CompatScenario(repo, name).result(a)
+            if isinstance(a, R) and a.kind == "usergeneric":
+                q = a.fields["qualname"].v
+                want_n: Any = q if name == "qualname_of_generic" else q.split(".")[-1]
+            elif isinstance(a, S):
+                want_n = a.name[11:]
+            else:
+                want_n = a.fields["origin"].v
+            n += 1
+            got = v.v if k == "return" and isinstance(v, K) else f"{k} {v}"
+            if name == "name_of_generic" and isinstance(a, R) and a.kind == "usergeneric":
+                continue  # only its use for typing's own constructs is catalogued
+            ok_n = got == want_n or (want_n == "Union" and got == "Optional")  # Optional[X] is a Union that calls itself Optional (CPython >= 3.10)
+            ctx.check(ok_n, rule, fi.fq,
+                      f"{name} names the generic by what has to be imported for it: typing's public name for a typing construct, the qualified name of the class for a user-defined generic (its import is the root of that path)",
+                      construct=f"{name}({la}) = {got!r}, expected {want_n!r}")
+    ctx.floor(rule, "compat predicate instances interpreted", n, 40 if which == ("types_equal",) else 60 if not set(which) <= {"qualname_of_generic", "name_of_generic"} else 20)
